@@ -30,7 +30,7 @@ sys.dont_write_bytecode = True
 from aiomysensors.persistence import Persistence
 from harness import gwdriver
 from aiomysensors import Gateway
-d, old, new = sys.argv[1], json.loads(sys.argv[2]), json.loads(sys.argv[3])
+d, old, new, prefail = sys.argv[1], json.loads(sys.argv[2]), json.loads(sys.argv[3]), sys.argv[4] == "1"
 path = os.path.join(d, "live")
 async def main():
     gw = Gateway(gwdriver.FakeTransport())
@@ -39,11 +39,29 @@ async def main():
         gwdriver.build_registry(gw, old)
         await pers.save()
         shutil.copy(path, os.path.join(d, "OLD.bin"))
+    if prefail:
+        # an earlier save fails for lack of space (file size limit), the application carries on
+        import resource, signal
+        signal.signal(signal.SIGXFSZ, signal.SIG_IGN)
+        soft, hard = resource.getrlimit(resource.RLIMIT_FSIZE)
+        resource.setrlimit(resource.RLIMIT_FSIZE, (8, hard))
+        failed = "no error"
+        try:
+            await pers.save()
+        except BaseException as err:
+            failed = type(err).__name__
+        resource.setrlimit(resource.RLIMIT_FSIZE, (soft, hard))
+        open(os.path.join(d, "PREFAIL.txt"), "w").write(failed)
     gw.nodes.clear()
     gwdriver.build_registry(gw, new)
     open(os.path.join(d, "MARK_BEGIN"), "w").close()
-    await pers.save()
+    res = "ok"
+    try:
+        await pers.save()
+    except BaseException as err:
+        res = type(err).__name__
     open(os.path.join(d, "MARK_END"), "w").close()
+    open(os.path.join(d, "SAVERES.txt"), "w").write(res)
 asyncio.run(main())
 """
 
@@ -54,12 +72,12 @@ def _unhex(s: str) -> bytes:
     return bytes(int(h, 16) for h in re.findall(r"\\x([0-9a-f]{2})", s))
 
 
-def record_ops(old, new, workroot: str) -> dict:
+def record_ops(old, new, workroot: str, prefail: bool = False) -> dict:
     d = tempfile.mkdtemp(prefix="crash-", dir=workroot)
     log = os.path.join(d, "strace.log")
     env = dict(os.environ, PYTHONPATH=os.pathsep.join([common.VERIF, "/repo/src"]), PYTHONDONTWRITEBYTECODE="1")
     proc = subprocess.run(["strace", "-f", "--seccomp-bpf", "-e", "trace=" + SYSCALLS, "-xx", "-s", "1000000", "-o", log,
-                           sys.executable, "-c", CHILD, d, json.dumps(old), json.dumps(new)],
+                           sys.executable, "-c", CHILD, d, json.dumps(old), json.dumps(new), "1" if prefail else "0"],
                           env=env, cwd=d, capture_output=True, text=True, timeout=300)
     if proc.returncode != 0:
         common.machinery_failure("strace child failed: " + proc.stderr[-1500:])
@@ -163,10 +181,31 @@ def record_ops(old, new, workroot: str) -> dict:
     if old is not None:
         with open(os.path.join(d, "OLD.bin"), "rb") as fil:
             oldbytes = fil.read()
-    with open(os.path.join(d, "live"), "rb") as fil:
-        newbytes = fil.read()
+    try:
+        with open(os.path.join(d, "live"), "rb") as fil:
+            newbytes = fil.read()
+    except OSError:
+        newbytes = None
+    with open(os.path.join(d, "SAVERES.txt")) as fil:
+        saveres = fil.read()
     shutil.rmtree(d, ignore_errors=True)
-    return {"ops": ops, "bufs": bufs, "old": oldbytes, "new": newbytes}
+    return {"ops": ops, "bufs": bufs, "old": oldbytes, "new": newbytes, "saveres": saveres}
+
+
+def complete_on_return(loop, rec: dict, newp, workdir: str) -> str | None:
+    """A save that returned normally must have left the registry in the file."""
+    if rec["saveres"] != "ok":
+        return "save raised " + rec["saveres"]
+    if rec["new"] is None:
+        return "no file after save returned"
+    d = tempfile.mkdtemp(prefix="post-", dir=workdir)
+    with open(os.path.join(d, "live"), "wb") as fil:
+        fil.write(rec["new"])
+    status, loaded = real_load(loop, os.path.join(d, "live"))
+    shutil.rmtree(d, ignore_errors=True)
+    if status != "ok" or json.dumps(loaded, sort_keys=True) != json.dumps(newp, sort_keys=True):
+        return f"after save returned the file loads to {status if status != 'ok' else 'another registry'}"
+    return None
 
 
 def crash_states(rec: dict, block: int, workdir: str) -> tuple[list, dict]:
@@ -220,7 +259,8 @@ REGS = {
     "one-changed": [node(1, sn="kitchen", bat=58, ch=[[0, {"type": 6, "desc": "t", "vals": [[0, "22.0"]]}]])],
     "large": [node(i, sn="node %d" % i, ch=[[c, {"type": 6, "desc": "", "vals": [[0, str(i * c)]]}] for c in range(3)]) for i in range(1, 9)],
 }
-PAIRS_QUICK = [("one", "two"), ("two", "one"), ("one", "one-changed"), (None, "one"), ("empty", "one")]
+PAIRS_QUICK = [("one", "two"), ("two", "one"), ("one", "one-changed"), (None, "one"), ("empty", "one"),
+               ("one", "two", "after-failed-save")]
 PAIRS_THOROUGH = PAIRS_QUICK + [("one", "empty"), ("two", "large"), ("large", "two"), ("large", "one"), ("one-changed", "one")]
 
 
@@ -265,19 +305,31 @@ def check(prop: str) -> int:
         import concurrent.futures
 
         def prepare(pair):
-            oldname, newname = pair
+            oldname, newname = pair[0], pair[1]
             old = REGS[oldname] if oldname else None
             sub = tempfile.mkdtemp(prefix="pair-", dir=workdir)
             tlc.stage(sub)
-            rec = record_ops(old, REGS[newname], sub)
-            if not rec["ops"]:
-                common.machinery_failure("no file-system operation of save was recorded")
+            rec = record_ops(old, REGS[newname], sub, prefail=(len(pair) > 2))
+            if not rec["ops"] or len(pair) > 2:
+                return old, rec, [], {"distinct": 0, "generated": 0, "depth": 0}
             states, summ = crash_states(rec, block, sub)
             return old, rec, states, summ
 
         with concurrent.futures.ThreadPoolExecutor(max_workers=len(pairs)) as pool:
             prepared = list(pool.map(prepare, pairs))
-        for (oldname, newname), (old, rec, states, summ) in zip(pairs, prepared):
+        for pair, (old, rec, states, summ) in zip(pairs, prepared):
+            oldname, newname = pair[0], pair[1]
+            bad = complete_on_return(loop, rec, _proj_of(REGS[newname]), workdir)
+            if bad:
+                rep.violation({"live": "save-incomplete-on-return", "after_failed_save": len(pair) > 2},
+                              {"kind": "save-crash", "old": old, "new": REGS[newname], "ops": rec["ops"], "crash_state": {"pc": 0, "part": -1, "files": []},
+                               "load_outcome": bad},
+                              f"saving {newname} over {oldname}{' after an earlier save failed for lack of space' if len(pair) > 2 else ''}: {bad}; "
+                              f"operations recorded: {[o['op'] for o in rec['ops']]}")
+                continue
+            if len(pair) > 2:
+                total += 1
+                continue
             rep.add_tlc(f"SaveCrash old={oldname} new={newname} block={block}", summ,
                         {"recorded_ops": [o["op"] + (":" + o["path"] if o["path"] else "") for o in rec["ops"]]})
             # reference projections of old / new
